@@ -8,6 +8,8 @@ Gen_Tables.v) and by differential runs of the extracted models against the real 
 Supporting tests (labelled as such): the whole decoder surface run under ASan+UBSan on witnesses, structure-aware
 mutations of real frames, truncations, random bytes, hostile dictionaries and legacy frames; agreement
 "libzstd success => R success with the same bytes"."""
+import glob
+import hashlib
 import json
 import os
 import random
@@ -720,6 +722,102 @@ def check_continuity(ctx, model_exe, items, variant):
     ctx.notes["continuity_traces"] = dict(total=len(items), sound=nfix, as_written_unsound=nasis)
 
 
+def build_msan_harness(defs):
+    """c03_fuzz.c + the decoder sources (lib/common, lib/decompress without the assembly loop, lib/legacy v0.5-0.7) compiled by
+    clang with -fsanitize=memory: reads of memory nobody wrote (gcc has no MemorySanitizer, so this variant does not go through
+    core.build_lib).  Cached by the content hash of lib/ + the harness.  None when clang / its runtime is not installed."""
+    import shutil
+    cc = shutil.which("clang")
+    if not cc:
+        return None
+    flags = ["-O1", "-g", "-fsanitize=memory", "-fsanitize-memory-track-origins", "-fno-omit-frame-pointer", "-w",
+             "-DZSTD_VERIF", "-DZSTD_LEGACY_SUPPORT=5", "-DZSTD_DISABLE_ASM", "-DC03_DECODER_ONLY"] + list(defs)
+    srcs = (sorted(glob.glob(os.path.join(core.REPO, "lib", "common", "*.c"))) + sorted(glob.glob(os.path.join(core.REPO, "lib", "decompress", "*.c")))
+            + [os.path.join(core.REPO, "lib", "legacy", "zstd_v0%d.c" % v) for v in (5, 6, 7)])
+    hsrc = os.path.join(core.HARNESS, "c03_fuzz.c")
+    key = hashlib.sha256((core.tree_hash() + open(hsrc).read() + " ".join(flags)).encode()).hexdigest()[:16]
+    outdir = os.path.join(core.BUILD, "bin", "c03_fuzz")
+    exe = os.path.join(outdir, "c03_fuzz-msan-" + key)
+    with core.Lock("bin-c03_fuzz-msan"):
+        if os.path.exists(exe):
+            os.utime(exe, None)
+            return exe
+        os.makedirs(outdir, exist_ok=True)
+        for old in glob.glob(os.path.join(outdir, "c03_fuzz-msan-*")):
+            try:
+                if time.time() - os.path.getmtime(old) > 3600:
+                    (shutil.rmtree if os.path.isdir(old) else os.unlink)(old)
+            except OSError:
+                pass
+        t0 = time.time()
+        odir = exe + ".o"
+        os.makedirs(odir, exist_ok=True)
+
+        def comp(src):
+            o = os.path.join(odir, os.path.basename(src) + ".o")
+            p = subprocess.run([cc] + flags + core.inc_flags() + ["-c", src, "-o", o], stdout=subprocess.PIPE, stderr=subprocess.STDOUT)
+            return o, p.returncode, p.stdout.decode("utf-8", "replace")
+        with ThreadPoolExecutor(4) as ex:
+            res = list(ex.map(comp, srcs + [hsrc]))
+        bad = [r for r in res if r[1] != 0]
+        if bad:
+            raise RuntimeError("MemorySanitizer build failed: " + bad[0][2][-2000:])
+        p = subprocess.run([cc, "-fsanitize=memory", "-g"] + [r[0] for r in res] + ["-o", exe + ".tmp"], stdout=subprocess.PIPE, stderr=subprocess.STDOUT)
+        if p.returncode != 0:
+            raise RuntimeError("MemorySanitizer link failed: " + p.stdout.decode("utf-8", "replace")[-2000:])
+        os.replace(exe + ".tmp", exe)
+        shutil.rmtree(odir, ignore_errors=True)
+        core.log("built harness c03_fuzz (msan, clang) in %.1fs" % (time.time() - t0))
+    return exe
+
+
+def msan_key(c, err):
+    if c and c["cmd"] in ("L", "D", "F") and c["dict"] and re.search(r"in ZSTDv05_loadEntropy", err) and "use-of-uninitialized-value" in err:
+        return "C03-legacy-v05-loadentropy-uninit-log"
+    return None
+
+
+def msan_pass(ctx, defs, cases, out_asan):
+    """the decoder-side cases once more under MemorySanitizer; besides the trap, the one-shot result must equal the ASan build's"""
+    exe = build_msan_harness(defs)
+    if exe is None:
+        ctx.notes["msan"] = "clang not installed: MemorySanitizer variant skipped"
+        return
+    sub = [c for c in cases if c["cmd"] in ("L", "D", "K", "B")]
+    fr = [c for c in cases if c["cmd"] == "F"]
+    if ctx.quick:
+        # every legacy / dictionary / block-level case, and every fourth frame-level case (all of those that carry a dictionary)
+        fr = [c for i, c in enumerate(fr) if c["dict"] or i % 4 == 0]
+    sub += fr
+    t0 = time.time()
+    out, crashes = run_lines(exe, [case_line(c) for c in sub])
+    core.log("msan harness: %d cases in %.1fs (%d reports)" % (len(sub), time.time() - t0, len(crashes)))
+    byid = {c["id"]: c for c in sub}
+    for line, rc, err in crashes:
+        cid = line.split(" ")[1] if " " in line else "?"
+        c = byid.get(cid)
+        summ = " ".join(re.findall(r"(WARNING: MemorySanitizer[^\n]*|SUMMARY:[^\n]*|#0 [^\n]*)", err)[:3]) or err[-300:]
+        ctx.violation(dict(kind="fuzz", line=line[:1200000], origin=c["origin"] if c else "?", rc=rc, variant="msan", report=err[-2500:]),
+                      what="decoder harness (MemorySanitizer build) died on a %s input (rc=%d): %s" % (c["origin"] if c else "?", rc, summ[:400]),
+                      key=msan_key(c, err))
+    ndiff = 0
+    for c in sub:
+        a, b = out_asan.get(c["id"]), out.get(c["id"])
+        if a is None or b is None:
+            continue
+        fa, fb = fields(a), fields(b)
+        ka, kb = fa.get("one", fa.get("blk")), fb.get("one", fb.get("blk"))
+        ctx.count(("msan", c["cmd"], (kb or "")[:2]), nontrivial=True)
+        if ka != kb:
+            m = getattr(ctx, "c03_R", {}).get(c["id"])
+            if m is not None and m[0] == "ERR" and m[2] in PERMISSIVE:
+                ndiff += 1       # no assembly loop in this variant: see the noasm variant of the thorough tier
+                continue
+            ctx.violation(replay_of(c, asan=(ka or "")[:200], msan=(kb or "")[:200], variant="msan"),
+                          what="the MemorySanitizer build (portable C loops) gives a different one-shot result than the default build on a %s input" % c["origin"])
+    ctx.notes["msan"] = dict(cases=len(sub), reports=len(crashes), tolerated_leniency_differences=ndiff)
+
+
 def has_empty_op(prog):
     return any(t in ("i0", "z") for t in prog.split(","))
 
@@ -1324,6 +1422,7 @@ def run(ctx):
     core.log("asan harness: %d cases in %.1fs (%d crashes)" % (len(cases), time.time() - t0, len(crashes)))
     evaluate(ctx, cd, model_exe, cases, out, crashes, npmax, "asan")
     ctx.notes["cases"] = len(cases)
+    msan_pass(ctx, defs, cases, out)
 
     # the witnesses must be rejected by every decoding path of the real code, except the documented one-shot cases
     for c in cases:
